@@ -85,6 +85,7 @@ UNARY = {
     "abs": "any", "absolute": "any", "fabs": "any", "nan_to_num": "any", "real": "any", "imag": "any", "conj": "any",
     "conjugate": "any", "angle": "any", "real_if_close": "any",
 }
+SMOOTH_AT_ZERO = {"negative", "exp", "exp2", "expm1", "log1p", "sin", "cos", "tan", "arcsin", "arctan", "sinh", "cosh", "tanh", "arcsinh", "arctanh", "rad2deg", "degrees", "deg2rad", "radians", "square", "sinc", "real", "imag", "conj", "conjugate", "real_if_close"}
 # functions NumPy does not define for complex input
 NO_COMPLEX = {"rad2deg", "degrees", "deg2rad", "radians", "fabs", "sinc_", "arctan2", "hypot", "logaddexp", "logaddexp2", "mod", "remainder", "maximum_", "fmax_", "exp2_"}
 # complex domain: keep away from branch cuts
@@ -103,6 +104,18 @@ def gen_unary(rng, cx=False):
         yield case(name, [A(rng, (1, 1), d, cx)])
         yield case(name, [scal(rng, d, cx, "s")])
         yield case(name, [scal(rng, d, cx, "n")])
+        if name in SMOOTH_AT_ZERO and not cx:
+            # exactly 0 (and -0.0) as the point / among the entries, for functions that are smooth there: a rule
+            # written as a quotient may be 0/0 at the most natural input
+            yield case(name, [0.0], tags=["zero_point"])
+            yield case(name, [onp.array(-0.0)], tags=["zero_point"])
+            z_ = A(rng, (5,), d, False) * 0.5
+            z_[[1, 3]] = [0.0, -0.0]
+            yield case(name, [z_], tags=["zero_point"])
+            yield case(name, [onp.zeros((2, 2))], tags=["zero_point"])
+            z_ = A(rng, (4,), d, False) * 0.5
+            z_[2] = 1e-9  # next to the removable singularity: cancellation
+            yield case(name, [z_], tags=["zero_point"])
         if name == "negative":
             for r in (0, 2):
                 yield case("neg", [A(rng, shape_of_rank(rng, r), d, cx)], form="operator")
@@ -128,6 +141,9 @@ def gen_unary(rng, cx=False):
         if name in ("transpose", "ravel"):
             continue
         yield case(name, [A(rng, shp, "pos", cx)], fresh_out=[list(oshp), odt], tags=["out_buffer"])
+        # ... and the buffer given POSITIONALLY (ufuncs: right after the operands; reductions: fourth)
+        pre = [None, None] if name in ("sum", "mean", "prod", "cumsum", "cumprod") else []
+        yield case(name, [A(rng, shp, "pos", cx)] + pre, fresh_out=[list(oshp), odt], fresh_out_pos=1 + len(pre), tags=["out_buffer", "out_positional"])
     # kinks: abs/absolute/fabs at exact zeros
     if not cx:
         for name in ("abs", "absolute", "fabs"):
@@ -205,6 +221,27 @@ def gen_binary(rng, cx=False):
                     if cx and not (ca, cb)[argnum] and not (ca or cb):
                         continue
                     yield case(name, [a, b], argnum=argnum, bcast=cls)
+        if name == "power" and cx:
+            # a complex base in the LEFT half plane (away from the negative real axis, the cut of log): z**w is
+            # holomorphic in the exponent with derivative log(z) z**w there as well
+            for shp_ in ((3,), (2, 2)):
+                zb = -onp.abs(sample(rng, shp_, "pos")) + 1j * rng.uniform(0.3, 0.9, size=shp_) * rng.choice([-1.0, 1.0], size=shp_)
+                yield case(name, [zb, A(rng, shp_, "small", True)], argnum=1, tags=["left_half_plane_base"])
+                yield case(name, [zb, A(rng, shp_, "small", False)], argnum=1, tags=["left_half_plane_base"])
+                yield case(name, [zb, A(rng, shp_, "small", True)], argnum=0, tags=["left_half_plane_base"])
+            yield case(name, [complex(-0.7, 0.6), A(rng, (3,), "small", True)], argnum=1, tags=["left_half_plane_base"])
+            yield case(name, [1j * onp.array([-0.8, 0.5]), A(rng, (2,), "small", True)], argnum=1, tags=["left_half_plane_base"])
+        if name in ("fmax", "fmin") and not cx:
+            # NaN entries in the OTHER operand: fmax / fmin ignore them, so the differentiated operand is selected
+            # there (a regular point); maximum / minimum would propagate the NaN (excluded: non-finite primal)
+            for shp_ in ((5,), (2, 3)):
+                a, b = _distinct_pair(rng, shp_, shp_)
+                b_nan, a_nan = b.copy(), a.copy()
+                b_nan.ravel()[[0, -1]] = onp.nan
+                a_nan.ravel()[[1]] = onp.nan
+                yield case(name, [a, b_nan], argnum=0, tags=["nan_other_operand"])
+                yield case(name, [a_nan, b], argnum=1, tags=["nan_other_operand"])
+            yield case(name, [sample(rng, (4,), "distinct"), float("nan")], argnum=0, tags=["nan_other_operand"])
         # python scalar / numpy scalar operands
         for (ca, cb) in mixes:
             s2 = shape_of_rank(rng, 2)
@@ -265,12 +302,16 @@ def gen_binary(rng, cx=False):
             yield case(name, [A(rng, (3,), "pos", cx), A(rng, (3,), "pos", cx)], argnum=argnum, fresh_out=[[3], dt], tags=["out_buffer"])
             yield case(name, [A(rng, (3,), "pos", cx), A(rng, (2, 3), "pos", cx)], argnum=argnum, fresh_out=[[2, 3], dt], tags=["out_buffer"])
         yield case(name, [A(rng, (3,), "pos", cx), 1.7], argnum=0, fresh_out=[[3], dt], tags=["out_buffer"])
+        for argnum in (0, 1):
+            yield case(name, [A(rng, (3,), "pos", cx), A(rng, (2, 3), "pos", cx)], argnum=argnum, fresh_out=[[2, 3], dt], fresh_out_pos=2, tags=["out_buffer", "out_positional"])
+        yield case(name, [A(rng, (3,), "pos", cx), 1.7], argnum=0, fresh_out=[[3], dt], fresh_out_pos=2, tags=["out_buffer", "out_positional"])
     for name, args_, oshp in (("dot", [A(rng, (2, 3), "any", cx), A(rng, (3, 2), "any", cx)], [2, 2]), ("matmul", [A(rng, (2, 3), "any", cx), A(rng, (3, 2), "any", cx)], [2, 2]), ("outer", [A(rng, (2,), "any", cx), A(rng, (3,), "any", cx)], [2, 3]),
                               ("clip", [A(rng, (3,), "any", cx), -0.5, 0.5], [3]), ("where", [onp.array([True, False, True]), A(rng, (3,), "any", cx), A(rng, (3,), "any", cx)], None)):
         if oshp is None or (cx and name == "clip"):
             continue
         for argnum in range(2 if name != "clip" else 1):
             yield case(name, args_, argnum=argnum, fresh_out=[oshp, dt], tags=["out_buffer"])
+            yield case(name, args_, argnum=argnum, fresh_out=[oshp, dt], fresh_out_pos=len(args_), tags=["out_buffer", "out_positional"])
     if not cx:
         # power: integer exponents, negative base with integer exponent, exponent classes
         for r in (0, 1, 2):
@@ -387,6 +428,19 @@ def gen_reductions(rng, cx=False):
                         if r >= 2:
                             yield case(name, [A(rng, shp_, dom, cx)], {"axis": 0, "dtype": dt}, tags=["dtype_option"])
         yield case(name, [scal(rng, "any", cx)])
+        if not cx and name in ("sum", "mean"):
+            # more elements than the largest half-precision number (65504): a count kept in the data's own
+            # precision overflows. Judged by the adjoint identity and the structure clauses (no FD at float16)
+            big16 = (0.5 + sample(rng, (70000,), "pos") / 4.0).astype(onp.float16)
+            yield case(name, [big16], tags=["large_reduced"])
+            yield case(name, [big16.reshape(70000, 1)], {"axis": 0}, tags=["large_reduced"])
+            yield case(name, [big16.reshape(2, 35000)], {"axis": -1, "keepdims": True}, tags=["large_reduced"])
+        if not cx and name == "sum":
+            # an accumulator dtype NARROWER than the argument: the gradient still belongs to the (float64) argument
+            for shp_ in ((3,), (2, 3)):
+                yield case(name, [A(rng, shp_, dom, False)], {"dtype": onp.float32}, tags=["dtype_narrow"])
+                yield case(name, [A(rng, shp_, dom, False)], {"axis": 0, "dtype": onp.float32, "keepdims": True}, tags=["dtype_narrow"])
+                yield case(name, [A(rng, shp_, dom, False)], {"axis": -1, "dtype": "float16"}, tags=["dtype_narrow"])
         # all-ones shapes (one element, rank >= 1)
         for shp in ((1,), (1, 1), (1, 1, 1)):
             for (ax, cls) in [("__default__", "default"), (None, "none"), (0, "zero"), (-1, "neg")] + ([((0, 1), "tuple")] if len(shp) >= 2 else []):
@@ -837,6 +891,14 @@ def gen_lists(rng, cx=False):
             yield case("column_stack", [[R(s_) for s_ in shapes]], argnum=argnum, form="listfun")
     yield case("array", [scal(rng, "any", cx)])
     yield case("array", [scal(rng, "any", cx)], {"ndmin": 2})
+    # dtype= changing the kind / precision of the differentiated argument (real -> complex, double -> single)
+    for dt_ in (complex, "complex128", onp.float32, "float64"):
+        if cx and dt_ in (onp.float32, "float64"):
+            continue
+        yield case("array", [R((3,))], {"dtype": dt_}, tags=["dtype_change"])
+        yield case("array", [R((2, 2)), dt_], tags=["dtype_change", "positional_dtype"])
+        yield case("array", [R((3,))], {"dtype": dt_, "ndmin": 3}, tags=["dtype_change"])
+        yield case("array", [scal(rng, "any", cx)], {"dtype": dt_}, tags=["dtype_change"])
     # append
     for (sa, sv, kw) in (((3,), (2,), {}), ((2, 3), (2,), {}), ((2, 3), (1, 3), {"axis": 0}), ((2, 3), (2, 2), {"axis": 1}), ((2, 3), (2, 2), {"axis": -1}), ((3,), (), {}), ((), (), {}), ((2, 2), (2, 2), {"axis": None})):
         for argnum in (0, 1):
